@@ -748,6 +748,93 @@ def nested_sweep(ctx, want):
     ctx.traces += total - sum(hits.values())
 
 
+# ------------------------------------------------------------------------------------------
+# two levels of nesting at every PAIR of instruction boundaries (thorough tier): p_nested2
+def nested2_model_outcomes(configs):
+    scen, owner = [], []
+    for (o, m, i, fill) in configs:
+        for k1 in range(0, 9):
+            for k2 in range(0, 9):
+                scen.append(build('nested2', fill, [o, m, i], [(0, 0)] * k1 + [(1, 0)] * k2 + [(2, 0)] * 12 + [(1, 0)] * 12 + [(0, 0)] * 12))
+                owner.append((o, m, i, fill))
+    res = run_model(scen)
+    allowed = {}
+    for cfg, s, r in zip(owner, scen, res):
+        rets, mainrets = {0: None, 1: None, 2: None}, []
+        for l in r['trace']:
+            if l[1] == 23:
+                if l[0] == -1:
+                    mainrets.append(l[5])
+                else:
+                    rets[l[0]] = l[5]
+        ok = r['finished'] == [1, 1, 1] and not any(r['panicked'])
+        out = (rets[0], rets[1], rets[2], tuple(x for x in mainrets[cfg[3]:] if x != 0)) if ok else ('model-incomplete',)
+        allowed.setdefault(cfg, set()).add(out)
+    return allowed
+
+
+def nested2_run_one(cfg, timeout=900):
+    o, m, i, fill = cfg
+    rc, out, _ = common.sh([common.bin_path('p_nested2'), o, m, i, str(fill)], timeout=timeout)
+    seen, bad, n, end = {}, [], 0, False
+    for l in out.split('\n'):
+        p = l.split()
+        if not p:
+            continue
+        if p[0] == 'K':
+            n += 1
+            oi, mi, ii, di, ci = p.index('O'), p.index('M'), p.index('I'), p.index('D'), p.index('C')
+            outc = (int(p[oi + 1]), int(p[mi + 1]), int(p[ii + 1]), tuple(int(x) for x in p[di + 1:ci]))
+            if outc not in seen:
+                seen[outc] = (int(p[1]), int(p[2]))
+            created, once, never, twice = (int(x) for x in p[ci + 1:ci + 5])
+            if never or twice or once != created:
+                bad.append(('drops', int(p[1]), int(p[2]), 'of %d payloads %d were never dropped and %d dropped more than once' % (created, never, twice)))
+        elif p[0] == 'P':
+            bad.append(('panic', int(p[1]), int(p[2]), ' '.join(p[3:])))
+        elif p[0] == 'X':
+            bad.append(('hang' if 'signal 14' in l else 'panic', int(p[1]), int(p[2]), 'the process ended abnormally: ' + ' '.join(p[3:])))
+        elif p[0] == 'E':
+            end = True
+    return {'cfg': cfg, 'seen': seen, 'bad': bad, 'n': n, 'end': end, 'rc': rc, 'tail': out[-200:]}
+
+
+def nested2_sweep(ctx, want):
+    from concurrent.futures import ThreadPoolExecutor
+    names = {'s': 'send', 'r': 'recv'}
+    configs = [(o, m, i, fill) for o in 'sr' for m in 'sr' for i in 'sr' for fill in range(0, SLOTS + 1)]
+    if not ctx.driver('channel', *DRIVER):
+        return
+    allowed = nested2_model_outcomes(configs)
+    with ThreadPoolExecutor(max_workers=12) as ex:
+        results = list(ex.map(nested2_run_one, configs))
+    hits, total, incomplete = {}, 0, []
+    for res in results:
+        o, m, i, fill = cfg = res['cfg']
+        what0 = '%s() interrupted by %s() interrupted by %s(), channel holding %d value(s)' % (names[o], names[m], names[i], fill)
+        total += res['n']
+        ctx.evaluations += res['n']
+        if not res['end']:
+            incomplete.append(what0 + ': ' + res['tail'])
+        for outc, (k1, k2) in res['seen'].items():
+            if outc not in allowed[cfg]:
+                hits['outcome'] = hits.get('outcome', 0) + 1
+                if 'outcome' in want and hits['outcome'] <= 3:
+                    ctx.violation({'monitor': 'nested2-outcome', 'cfg': list(cfg), 'k1': k1, 'k2': k2},
+                                  '%s, after %d / %d instructions: results %s, drained %s - not an outcome of the model at any pair of step boundaries'
+                                  % (what0, k1, k2, list(outc[:3]), list(outc[3])), {'nested2': {'cfg': list(cfg), 'k1': k1, 'k2': k2}, 'observed': outc})
+        for kind, k1, k2, text in res['bad']:
+            hits[kind] = hits.get(kind, 0) + 1
+            if kind in want and hits[kind] <= 3:
+                ctx.violation({'monitor': 'nested2-' + kind, 'cfg': list(cfg), 'k1': k1, 'k2': k2}, '%s, after %d / %d instructions: %s' % (what0, k1, k2, text),
+                              {'nested2': {'cfg': list(cfg), 'k1': k1, 'k2': k2}})
+    ctx.correspondence('two-level nested sweep: every outcome at a pair of instruction boundaries (48 configurations) is an outcome of the SC model',
+                       not hits.get('outcome') and not incomplete, {'hits': hits, 'incomplete': incomplete[:3]})
+    ctx.coverage['nested2_instruction_sweep'] = {'configurations': len(configs), 'boundary_pairs': total, 'failures': hits,
+                                                 'distinct_outcomes': sum(len(r['seen']) for r in results)}
+    ctx.traces += total
+
+
 def nested_replay(c):
     n = c['nested']
     cfg = (n['outer'], n['inner'], n['fill'])
@@ -785,6 +872,23 @@ def replay_case(ctx, path, monitors):
         for b in bad:
             print('REPRODUCED (model execution):', BADNAME.get(b, b))
         return 1 if bad else 0
+    if c.get('nested2'):
+        ctx.harness(['p_nested2'])
+        ctx.translate(['channel'])
+        if not ctx.driver('channel', *DRIVER):
+            return 1
+        n = c['nested2']
+        cfg = tuple(n['cfg'][:3]) + (int(n['cfg'][3]),)
+        allowed = nested2_model_outcomes([cfg])[cfg]
+        res = nested2_run_one(cfg)
+        bad = [(k, k1, k2, t) for k, k1, k2, t in res['bad'] if (k1, k2) == (n['k1'], n['k2'])]
+        wrong = [(o, w) for o, w in res['seen'].items() if o not in allowed]
+        print('configuration', cfg, 'boundary pairs', res['n'], 'model outcomes', sorted(allowed))
+        for b in bad:
+            print('REPRODUCED:', b)
+        for o, w in wrong:
+            print('REPRODUCED: outcome', o, 'first at', w)
+        return 1 if bad or wrong else 0
     if c.get('nested'):
         ctx.harness(['p_nested'])
         ctx.translate(['channel'])
